@@ -33,7 +33,7 @@ HARNESSES = {
         H("ieee_classification", "data", "K.ieee_classification", complete=True),
         H("c14_import_case_multi_single", "lib", "C14.K.import_slow.accepts_iff", bounded="one multi-action infoset (2 actions) [+ one single-action infoset]; 2 entries x 1 pair with the concrete name pattern `multi_single`; weights ANY f64 (legal ones <= 1e300)", group="safe_rust", tier="thorough", timeout=2400),
         H("c14_import_case_single_multi", "lib", "C14.K.import_slow.accepts_iff", bounded="one multi-action infoset (2 actions) [+ one single-action infoset]; 2 entries x 1 pair with the concrete name pattern `single_multi`; weights ANY f64 (legal ones <= 1e300)", group="safe_rust", tier="thorough", timeout=2400),
-        H("c14_import_case_repeat", "lib", "C14.K.import_slow.accepts_iff", bounded="one multi-action infoset (2 actions) [+ one single-action infoset]; 2 entries x 1 pair with the concrete name pattern `repeat`; weights ANY f64 (legal ones <= 1e300)", group="safe_rust", tier="thorough", timeout=2400),
+        H("c14_import_case_repeat", "lib", "C14.K.import_slow.accepts_iff", bounded="one multi-action infoset (2 actions) [+ one single-action infoset]; 2 entries x 1 pair with the concrete name pattern `repeat`; weights ANY f64 (legal ones <= 1e300)", group="safe_rust", timeout=1200),
         H("c14_import_case_two_actions", "lib", "C14.K.import_slow.accepts_iff", bounded="one multi-action infoset (2 actions) [+ one single-action infoset]; 2 entries x 1 pair with the concrete name pattern `two_actions`; weights ANY f64 (legal ones <= 1e300)", group="safe_rust", tier="thorough", timeout=2400),
         H("c14_import_case_missing_single", "lib", "C14.K.import_slow.accepts_iff", bounded="one multi-action infoset (2 actions) [+ one single-action infoset]; 2 entries x 1 pair with the concrete name pattern `missing_single`; weights ANY f64 (legal ones <= 1e300)", group="safe_rust", tier="thorough", timeout=2400),
         H("c14_import_case_unknown_infoset", "lib", "C14.K.import_slow.accepts_iff", bounded="one multi-action infoset (2 actions) [+ one single-action infoset]; 2 entries x 1 pair with the concrete name pattern `unknown_infoset`; weights ANY f64 (legal ones <= 1e300)", group="safe_rust", tier="thorough", timeout=2400),
